@@ -101,6 +101,29 @@ fn main() {
     install_quiet_panic_hook();
     let id = args[1].as_str();
     let root = verif_root();
+    if id == "c18-one" {
+        // child mode of C18's huge-input tier: parse one input (first byte = entry point) on the main
+        // thread; exit 0 if the parser returned, 101 if it panicked; an abort kills the process
+        let data = std::fs::read(&args[2]).unwrap_or_default();
+        std::panic::set_hook(Box::new(|info| eprintln!("panic: {info}")));
+        if data.is_empty() {
+            std::process::exit(0);
+        }
+        // on a thread with the default 2 MiB stack of a spawned thread (where library users parse)
+        let h = std::thread::Builder::new()
+            .stack_size(2 << 20)
+            .spawn(move || {
+                let eps = checks::c18::entry_points();
+                let text = String::from_utf8_lossy(&data[1..]).into_owned();
+                let ep = &eps[data[0] as usize % eps.len()];
+                let _ = (ep.parse)(&text);
+            })
+            .expect("spawn parser thread");
+        match h.join() {
+            Ok(()) => std::process::exit(0),
+            Err(_) => std::process::exit(101),
+        }
+    }
     if id == "fuzzcase" {
         // plv fuzzcase <target> <artifact file> <Cxx> : turn a libFuzzer artifact into a replay file
         let target = args[2].as_str();
